@@ -113,6 +113,9 @@ theorem minLen_le : ∀ (ty : Ty) (v : Val), wf ty v = true → minLen ty ≤ (S
   | .box _ t, v, h => by
     simp only [Spec.encode, minLen]
     exact minLen_le t v (by simpa [wf] using h)
+  | .wrap t, v, h => by
+    simp only [Spec.encode, minLen]
+    exact minLen_le t v (by simpa [wf] using h)
   | .duration, v, h => by
     obtain ⟨s, n, rfl, _, _⟩ := wf_duration h
     simp [Spec.encode, minLen]
@@ -250,6 +253,10 @@ theorem held_le : ∀ (ty : Ty) (v : Val), productive ty = true → wf ty v = tr
     cases v <;> try (simp [wf] at h; done)
     case bytes bs => simp only [held, memRatio, baseMem, Spec.encode, List.length_append]; omega
   | .box sz t, v, hp, h => by
+    have := held_le t v (by simpa [productive] using hp) (by simpa [wf] using h)
+    simp only [held, memRatio, baseMem, Spec.encode]
+    omega
+  | .wrap t, v, hp, h => by
     have := held_le t v (by simpa [productive] using hp) (by simpa [wf] using h)
     simp only [held, memRatio, baseMem, Spec.encode]
     omega
